@@ -171,6 +171,13 @@ func computeBcrypt(opts HashOpts, pass string) (string, error) {
 }
 
 func verifyBcrypt(pass, hashSalt string) error {
+	// bcrypt uses only the first 72 bytes of the password.
+	// GenerateFromPassword refuses longer ones, so no hash we store was made
+	// from such a password; CompareHashAndPassword however silently truncates
+	// and would accept any extension of a 72 byte password.
+	if len(pass) > 72 {
+		return bcrypt.ErrPasswordTooLong
+	}
 	return bcrypt.CompareHashAndPassword([]byte(hashSalt), []byte(pass))
 }
 
